@@ -391,6 +391,8 @@ class Exec(object):
             ret = getattr(self.api, name)(*args)
         except SimBudgetExceeded as e:
             exc = e
+            if kernel.wall_stall(e):
+                self.stalled = True
         except Exception as e:
             exc = e
         self.api_calls += 1
@@ -411,6 +413,10 @@ class Exec(object):
                 h(op)
             else:
                 self.world.apply(op)
+            if getattr(self, "stalled", False):
+                break  # a call never returned: nothing after it can be judged
+        if getattr(self, "stalled", False):
+            return self.result()
         self.check_observers()
         return self.result()
 
@@ -460,7 +466,7 @@ class Exec(object):
         self.clauses["C18.values"] += 1
         if exc is not None:
             clause = "C18.stall" if isinstance(exc, SimBudgetExceeded) else "C18.events"
-            self.fail(clause, "%s raised %s: %s" % (name, type(exc).__name__, exc), api=name, raised=type(exc).__name__, **feats)
+            self.fail(clause, "%s raised %s: %s" % (name, type(exc).__name__, exc), api=name, raised=type(exc).__name__, wall=str(exc).startswith("wall-clock"), **feats)
             return False
         got = [(k, a) for (k, a, t) in evs]
         if len(got) != len(expected) or any(g[0] != e[0] for g, e in zip(got, expected)):
@@ -578,7 +584,7 @@ class Exec(object):
         self.shape.append("%s:%d:%d" % (name, len(entries), n_notes))
         if exc is not None:
             clause = "C18.stall" if isinstance(exc, SimBudgetExceeded) else "C18.events"
-            self.fail(clause, "%s raised %s: %s" % (name, type(exc).__name__, exc), api=name, raised=type(exc).__name__, **feats)
+            self.fail(clause, "%s raised %s: %s" % (name, type(exc).__name__, exc), api=name, raised=type(exc).__name__, wall=str(exc).startswith("wall-clock"), **feats)
             return
         # "for every sounding note in order": the play events come in the order of the music
         want_on = [("on", (score.pitch_of(nm, o) + 12, ch, vel)) for e in entries for (nm, o, ch, vel) in (e["notes"] or [])]
@@ -671,7 +677,7 @@ class Exec(object):
         self.shape.append("%s:%s:%dv:%db%s" % (name, rhythm, len(voices_per_bar[0]), len(voices_per_bar), ":tempo" if tempo else ""))
         if exc is not None:
             clause = "C18.stall" if isinstance(exc, SimBudgetExceeded) else "C18.events"
-            self.fail(clause, "%s raised %s: %s" % (name, type(exc).__name__, exc), api=name, raised=type(exc).__name__, **feats)
+            self.fail(clause, "%s raised %s: %s" % (name, type(exc).__name__, exc), api=name, raised=type(exc).__name__, wall=str(exc).startswith("wall-clock"), **feats)
             return
         # instrument announcements come first
         k = 0
